@@ -3,6 +3,7 @@ CONSTANTS
   Focus = {"a", "l"}
   NDcf = 1
   MaxArgv = 1
+  Repeat = FALSE
   Emit = TRUE
 INVARIANT DocumentedOrder
 INVARIANT StagesAgree
